@@ -356,4 +356,112 @@ theorem router_decomp (d : Dragonfly) (r : Nat) (hr : r < d.nRouters) :
     Nat.mod_lt _ hCB, e5, Nat.div_add_mod' r (d.C * d.B), ?_⟩
   rw [e3, e6, ← e7, e4, e5]
 
+/-! ### G2: the key (router, inter-router slot) determines the link -/
+
+theorem green_functional (d : Dragonfly) (u0 : Nat) (x x' : Nat × Nat × Nat) (u u' : Nat)
+    (hx : (x, u) ∈ tag (greenIdx d) u0) (hx' : (x', u') ∈ tag (greenIdx d) u0) (e1 e2 : DAssign)
+    (h1 : e1 ∈ emitG d x u) (h2 : e2 ∈ emitG d x' u') (hr : e1.router = e2.router) (hs : e1.slot = e2.slot) :
+    e1.link = e2.link := by
+  obtain ⟨i, j, k⟩ := x
+  obtain ⟨i', j', k'⟩ := x'
+  have m1 := (mem_greenIdx d i j k).1 (mem_tag_fst _ _ _ _ hx).1
+  have m2 := (mem_greenIdx d i' j' k').1 (mem_tag_fst _ _ _ _ hx').1
+  simp only [emitG, List.mem_cons, List.not_mem_nil, or_false] at h1 h2
+  rcases h1 with rfl | rfl <;> rcases h2 with rfl | rfl <;> simp only [DSlot.green.injEq] at hr hs
+  · obtain ⟨a1, a2⟩ := divmod_unique d.B i k i' k' (by omega) (by omega) hr
+    subst a1 a2 hs
+    have := tag_functional _ (nodup_greenIdx d) _ _ _ _ hx hx'
+    subst this
+    rfl
+  · obtain ⟨a1, a2⟩ := divmod_unique d.B i k i' j' (by omega) (by omega) hr
+    omega
+  · obtain ⟨a1, a2⟩ := divmod_unique d.B i j i' k' (by omega) (by omega) hr
+    omega
+  · obtain ⟨a1, a2⟩ := divmod_unique d.B i j i' j' (by omega) (by omega) hr
+    subst a1 a2 hs
+    have := tag_functional _ (nodup_greenIdx d) _ _ _ _ hx hx'
+    subst this
+    rfl
+
+theorem black_functional (d : Dragonfly) (u0 : Nat) (x x' : Nat × Nat × Nat × Nat) (u u' : Nat)
+    (hx : (x, u) ∈ tag (blackIdx d) u0) (hx' : (x', u') ∈ tag (blackIdx d) u0) (e1 e2 : DAssign)
+    (h1 : e1 ∈ emitK d x u) (h2 : e2 ∈ emitK d x' u') (hr : e1.router = e2.router) (hs : e1.slot = e2.slot) :
+    e1.link = e2.link := by
+  obtain ⟨i, j, k, l⟩ := x
+  obtain ⟨i', j', k', l'⟩ := x'
+  have m1 := (mem_blackIdx d i j k l).1 (mem_tag_fst _ _ _ _ hx).1
+  have m2 := (mem_blackIdx d i' j' k' l').1 (mem_tag_fst _ _ _ _ hx').1
+  simp only [emitK, List.mem_cons, List.not_mem_nil, or_false] at h1 h2
+  rcases h1 with rfl | rfl <;> rcases h2 with rfl | rfl <;> simp only [DSlot.black.injEq, mulBC] at hr hs
+  · obtain ⟨a1, a2, a3⟩ := black_unique d.B d.C i k l i' k' l' (by omega) (by omega) (by omega) (by omega) hr
+    subst a1 a2 a3 hs
+    have := tag_functional _ (nodup_blackIdx d) _ _ _ _ hx hx'
+    subst this
+    rfl
+  · obtain ⟨a1, a2, a3⟩ := black_unique d.B d.C i k l i' j' l' (by omega) (by omega) (by omega) (by omega) hr
+    omega
+  · obtain ⟨a1, a2, a3⟩ := black_unique d.B d.C i j l i' k' l' (by omega) (by omega) (by omega) (by omega) hr
+    omega
+  · obtain ⟨a1, a2, a3⟩ := black_unique d.B d.C i j l i' j' l' (by omega) (by omega) (by omega) (by omega) hr
+    subst a1 a2 a3 hs
+    have := tag_functional _ (nodup_blackIdx d) _ _ _ _ hx hx'
+    subst this
+    rfl
+
+theorem blue_functional (d : Dragonfly) (hGB : d.G ≤ d.C * d.B) (u0 : Nat) (x x' : Nat × Nat) (u u' : Nat)
+    (hx : (x, u) ∈ tag (blueIdx d) u0) (hx' : (x', u') ∈ tag (blueIdx d) u0) (e1 e2 : DAssign)
+    (h1 : e1 ∈ emitB d x u) (h2 : e2 ∈ emitB d x' u') (hr : e1.router = e2.router) :
+    e1.link = e2.link := by
+  obtain ⟨i, j⟩ := x
+  obtain ⟨i', j'⟩ := x'
+  have m1 := (mem_blueIdx d i j).1 (mem_tag_fst _ _ _ _ hx).1
+  have m2 := (mem_blueIdx d i' j').1 (mem_tag_fst _ _ _ _ hx').1
+  simp only [emitB, List.mem_cons, List.not_mem_nil, or_false] at h1 h2
+  rcases h1 with rfl | rfl <;> rcases h2 with rfl | rfl <;> simp only [mulBC] at hr
+  · obtain ⟨a1, a2⟩ := divmod_unique (d.C * d.B) j i j' i' (by omega) (by omega) hr
+    subst a1 a2
+    have := tag_functional _ (nodup_blueIdx d) _ _ _ _ hx hx'
+    subst this
+    rfl
+  · obtain ⟨a1, a2⟩ := divmod_unique (d.C * d.B) j i i' j' (by omega) (by omega) hr
+    omega
+  · obtain ⟨a1, a2⟩ := divmod_unique (d.C * d.B) i j j' i' (by omega) (by omega) hr
+    omega
+  · obtain ⟨a1, a2⟩ := divmod_unique (d.C * d.B) i j i' j' (by omega) (by omega) hr
+    subst a1 a2
+    have := tag_functional _ (nodup_blueIdx d) _ _ _ _ hx hx'
+    subst this
+    rfl
+
+/-- **G2**: in the final list two entries with the same router and the same inter-router slot carry the same link -/
+theorem genLinks_key_functional (d : Dragonfly) (hGB : d.G ≤ d.C * d.B) (e1 e2 : DAssign)
+    (h1 : e1 ∈ d.genLinks.2) (h2 : e2 ∈ d.genLinks.2) (hr : e1.router = e2.router) (hs : e1.slot = e2.slot)
+    (hn : ∀ i, e1.slot ≠ .node i) : e1.link = e2.link := by
+  rcases mem_genLinks d e1 h1 with ⟨i, h⟩ | ⟨x, u, hx, ha⟩ | ⟨x, u, hx, ha⟩ | ⟨x, u, hx, ha⟩
+  · exact absurd h (hn i)
+  · obtain ⟨k, hk⟩ := emitG_slot d x u e1 ha
+    rcases mem_genLinks d e2 h2 with ⟨i, h⟩ | ⟨x', u', hx', ha'⟩ | ⟨x', u', hx', ha'⟩ | ⟨x', u', hx', ha'⟩
+    · rw [← hs, hk] at h; cases h
+    · exact green_functional d _ x x' u u' hx hx' e1 e2 ha ha' hr hs
+    · obtain ⟨k', hk'⟩ := emitK_slot d x' u' e2 ha'
+      rw [hk, hk'] at hs; cases hs
+    · have hk' := emitB_slot d x' u' e2 ha'
+      rw [hk, hk'] at hs; cases hs
+  · obtain ⟨k, hk⟩ := emitK_slot d x u e1 ha
+    rcases mem_genLinks d e2 h2 with ⟨i, h⟩ | ⟨x', u', hx', ha'⟩ | ⟨x', u', hx', ha'⟩ | ⟨x', u', hx', ha'⟩
+    · rw [← hs, hk] at h; cases h
+    · obtain ⟨k', hk'⟩ := emitG_slot d x' u' e2 ha'
+      rw [hk, hk'] at hs; cases hs
+    · exact black_functional d _ x x' u u' hx hx' e1 e2 ha ha' hr hs
+    · have hk' := emitB_slot d x' u' e2 ha'
+      rw [hk, hk'] at hs; cases hs
+  · have hk := emitB_slot d x u e1 ha
+    rcases mem_genLinks d e2 h2 with ⟨i, h⟩ | ⟨x', u', hx', ha'⟩ | ⟨x', u', hx', ha'⟩ | ⟨x', u', hx', ha'⟩
+    · rw [← hs, hk] at h; cases h
+    · obtain ⟨k', hk'⟩ := emitG_slot d x' u' e2 ha'
+      rw [hk, hk'] at hs; cases hs
+    · obtain ⟨k', hk'⟩ := emitK_slot d x' u' e2 ha'
+      rw [hk, hk'] at hs; cases hs
+    · exact blue_functional d hGB _ x x' u u' hx hx' e1 e2 ha ha' hr
+
 end SgVerif.C26
